@@ -25,8 +25,19 @@ type c10ps struct {
 	mu       sync.Mutex
 }
 
-func c10new(nsub int) *c10ps {
+func c10new(nsub int) *c10ps { return c10newOpt(nsub, true) }
+
+// c10newOpt: with full == false the configuration is the plain one (unbuffered, no timeout)
+func c10newOpt(nsub int, full bool) *c10ps {
 	s := &c10ps{ps: &PubSub[int]{}}
+	if !full {
+		s.logs = make([][]int, nsub)
+		s.closed = make([]bool, nsub)
+		for i := 0; i < nsub; i++ {
+			s.subs = append(s.subs, s.ps.Sub())
+		}
+		return s
+	}
 	s.ps.DefaultBuffer = vChoose("buffer", 2)
 	s.ps.PubTimeoutAfter = time.Duration(vInt64("timeoutAfter"))
 	s.ps.OnPubTimeout = func(ev int) {
@@ -237,13 +248,19 @@ func VHPubUnsub() {
 
 // VHPubNoPanic: a publisher concurrent with Unsub / UnsubAll / Sub: no interleaving may crash.
 func VHPubNoPanic() {
-	nsub := 1 + vChoose("nsub", vParam("SUBS"))
-	s := c10new(nsub)
+	var s *c10ps
+	if vParam("PLAIN") == 1 {
+		// exactly SUBS subscribers, unbuffered, no timeout: room for more goroutines
+		s = c10newOpt(vParam("SUBS"), false)
+	} else {
+		s = c10new(1 + vChoose("nsub", vParam("SUBS")))
+	}
 	ev := vInt("ev")
 	variant := vChoose("variant", 6)
 	s.receivers()
 	vGo(func() { s.publish(variant, []int{ev}) })
-	switch vChoose("other", 3) {
+	otherOp := vChoose("other", 3)
+	switch otherOp {
 	case 0:
 		vGo(func() { s.ps.Unsub(s.subs[0]) })
 	case 1:
@@ -260,6 +277,24 @@ func VHPubNoPanic() {
 	vWait()
 	for i := range s.subs {
 		vAssert(c10count(s.logs[i], ev) <= 1, "an event reaches a subscriber at most once")
+	}
+	// subscribers that stayed subscribed throughout and keep receiving get the event exactly
+	// once (or exactly one OnPubTimeout when a timeout is configured)
+	if otherOp != 1 {
+		first := 0
+		if otherOp == 0 {
+			first = 1
+		}
+		got := 0
+		for i := first; i < len(s.subs); i++ {
+			got += c10count(s.logs[i], ev)
+		}
+		stayed := len(s.subs) - first
+		if s.ps.PubTimeoutAfter > 0 {
+			vAssert(got <= stayed && got+c10count(s.timeouts, ev) >= stayed, "every subscriber that stayed subscribed gets the event or a timeout")
+		} else {
+			vAssert(got == stayed, "every subscriber that stayed subscribed throughout receives the event exactly once, whatever Unsub/Sub calls run concurrently")
+		}
 	}
 	vCover("nopanic done")
 }
